@@ -94,6 +94,26 @@ pub fn run<W: Write>(_seed: u64, thorough: bool, w: &mut W) {
             }
         }
     }
+    // threads that run ONE AFTER THE OTHER (each joined before the next starts): their draws must
+    // differ too (seed C19-j: a per-thread generator seeded from the address of a thread-local,
+    // which a later thread inherits from a finished one and so replays its tables)
+    for (label, f) in [("Lut", dyn_draws as fn(usize, usize) -> Vec<Tab>), ("LutN", stat_draws as fn(usize, usize) -> Vec<Tab>)] {
+        for n in [7usize, 8, 10] {
+            let mut all: Vec<Tab> = Vec::new();
+            for _ in 0..24 {
+                let ds = std::thread::spawn(move || f(n, 16)).join().unwrap();
+                all.extend(ds);
+            }
+            total += all.len();
+            let mut d = all.clone();
+            d.sort_by(|a, b| a.w.cmp(&b.w));
+            d.dedup();
+            distinct_total += d.len();
+            if d.len() != all.len() {
+                fails.push(format!("{} n={}: 24 threads run one after the other produced identical draws ({} distinct of {})", label, n, d.len(), all.len()));
+            }
+        }
+    }
     // sizes interleaved on one thread (seed C19-g: a per-thread pool of spare random bits that
     // goes wrong only when calls of different small sizes alternate): a fixed pseudo-random order
     // of sizes 0..=8, k draws of each size in all, analysed per size as above
